@@ -6,9 +6,9 @@ import c01
 
 PID = "C04"
 LEVEL = "proof"
-COQ_TARGETS = ["Props/C04.vo", "Props/C04_fp.vo"]
-PROPS_FILES = ["C04", "C04_fp"]
-THEOREMS = ["C04_fingerprints", "C04_Gamma_new_sound", "C04_Normal_new_sound", "C04_Beta_new_sound", "C04_Dirichlet_new_sound",
+COQ_TARGETS = ["Props/C04.vo", "Props/C04_fp.vo", "Props/C04_fl.vo"]
+PROPS_FILES = ["C04", "C04_fp", "C04_fl"]
+THEOREMS = ["C04_fingerprints", "C04_from_mean_cv_source", "C04_from_mean_cv_std_dev", "C04_from_mean_cv_sign", "C04_Gamma_new_sound", "C04_Normal_new_sound", "C04_Beta_new_sound", "C04_Dirichlet_new_sound",
             "C04_LogNormal_from_mean_cv_sound_except", "C04_Hypergeometric_new_sound_except"]
 TRUSTED_BASE = [
     "Coq 8.16.1 kernel; Flocq 4.1 BinarySingleNaN (IEEE binary32/binary64 with Bcompare, Bplus, Bmult, Bdiv, Bsqrt) and its classical "
